@@ -91,7 +91,7 @@ def blocks_from_vector(vec, configs, codemap="ascii", define_only=False, mems=(0
         for t in terms:
             lines.append("T %s %d" % (tname(t), code(t)))
     for r in vec["rules"]:
-        lines.append(rule_line(r))
+        lines.append(rule_line(r, null_empty=bool(vec.get("null_empty"))))
     dn, ds = vec["dn"], vec["ds"]
     if define_only:
         # C10: both strictness levels, each followed by a parse that must be refused when the definition failed
